@@ -134,6 +134,86 @@ class DecompositionError(Exception):
         self.atom = atom
 
 
+# SMARTS / SMILES correction descriptors: a closed table of pattern texts with
+# their meaning written down by hand (element numbers, bonds with order or
+# None for '~'), so that no SMARTS engine is needed on the reference side.
+SMARTS_TABLE = {
+    '[#6]-[#8]': ([6, 8], [(0, 1, 1.0)]),
+    '[#6]-[#1]': ([6, 1], [(0, 1, 1.0)]),
+    '[#8]-[#1]': ([8, 1], [(0, 1, 1.0)]),
+    '[#6]=[#6]': ([6, 6], [(0, 1, 2.0)]),
+    '[#6]=[#8]': ([6, 8], [(0, 1, 2.0)]),
+    '[#6]#[#6]': ([6, 6], [(0, 1, 3.0)]),
+    '[#6]~[#6]': ([6, 6], [(0, 1, None)]),
+    '[#6]-[#6]-[#6]': ([6, 6, 6], [(0, 1, 1.0), (1, 2, 1.0)]),
+    '[#6](-[#1])-[#8]': ([6, 1, 8], [(0, 1, 1.0), (0, 2, 1.0)]),
+    '[#6](-[#6])(-[#6])-[#6]': ([6, 6, 6, 6], [(0, 1, 1.0), (0, 2, 1.0),
+                                               (0, 3, 1.0)]),
+    '[#6]:[#6]': ([6, 6], [(0, 1, 1.5)]),
+    '[#1]-[#6]-[#1]': ([1, 6, 1], [(0, 1, 1.0), (1, 2, 1.0)]),
+}
+SMILES_TABLE = {
+    'CO': ([6, 8], [(0, 1, 1.0)]),
+    'CC': ([6, 6], [(0, 1, 1.0)]),
+    'C=C': ([6, 6], [(0, 1, 2.0)]),
+    'C=O': ([6, 8], [(0, 1, 2.0)]),
+    'C#C': ([6, 6], [(0, 1, 3.0)]),
+    'CCC': ([6, 6, 6], [(0, 1, 1.0), (1, 2, 1.0)]),
+    'COC': ([6, 8, 6], [(0, 1, 1.0), (1, 2, 1.0)]),
+    'CC(C)C': ([6, 6, 6, 6], [(0, 1, 1.0), (1, 2, 1.0), (1, 3, 1.0)]),
+    'C=CC': ([6, 6, 6], [(0, 1, 2.0), (1, 2, 1.0)]),
+    'c1ccccc1': ([6] * 6, [(i, (i + 1) % 6, 1.5) for i in range(6)]),
+    'OCO': ([8, 6, 8], [(0, 1, 1.0), (1, 2, 1.0)]),
+}
+
+
+def plain_graph(m):
+    """Labelled graph of the atoms RDKit holds explicitly in `m`."""
+    import networkx as nx
+    g = nx.Graph()
+    for a in m.GetAtoms():
+        g.add_node(a.GetIdx(), z=a.GetAtomicNum())
+    for b in m.GetBonds():
+        g.add_edge(b.GetBeginAtomIdx(), b.GetEndAtomIdx(),
+                   o=b.GetBondTypeAsDouble())
+    return g
+
+
+def count_atom_sets(g, zs, bonds):
+    """Number of distinct atom sets onto which the pattern (zs, bonds) maps
+    by an injective, element- and bond-order-preserving map (extra bonds
+    between matched atoms allowed: substructure, not induced subgraph)."""
+    n = len(zs)
+    adj = {i: [] for i in range(n)}
+    for i, j, o in bonds:
+        adj[i].append((j, o))
+        adj[j].append((i, o))
+    found = set()
+
+    def ok(i, v, emb):
+        if g.nodes[v]['z'] != zs[i] or v in emb.values():
+            return False
+        for j, o in adj[i]:
+            if j in emb:
+                if not g.has_edge(v, emb[j]):
+                    return False
+                if o is not None and abs(g[v][emb[j]]['o'] - o) > 1e-9:
+                    return False
+        return True
+
+    def rec(i, emb):
+        if i == n:
+            found.add(frozenset(emb.values()))
+            return
+        for v in g.nodes:
+            if ok(i, v, emb):
+                emb[i] = v
+                rec(i + 1, emb)
+                del emb[i]
+    rec(0, {})
+    return len(found)
+
+
 class SchemeRef(object):
     def __init__(self, data):
         self.patterns = []
@@ -147,9 +227,21 @@ class SchemeRef(object):
         for k, v in (data.get('remaps') or {}).items():
             self.remaps[canon_name(str(k))] = [(float(c), str(t))
                                                for c, t in v]
-        self.unsupported = [k for k in ('smiles_based_descriptors',
-                                        'smarts_based_descriptors')
-                            if data.get(k)]
+        self.smarts_descs = []
+        self.smiles_descs = []
+        self.unsupported = []
+        for p in data.get('smarts_based_descriptors') or []:
+            if p['smarts'] in SMARTS_TABLE and not p.get('useChirality'):
+                self.smarts_descs.append((p['name'],
+                                          SMARTS_TABLE[p['smarts']]))
+            else:
+                self.unsupported.append(p['smarts'])
+        for p in data.get('smiles_based_descriptors') or []:
+            if p['smiles'] in SMILES_TABLE and not p.get('useChirality'):
+                self.smiles_descs.append((p['name'],
+                                          SMILES_TABLE[p['smiles']]))
+            else:
+                self.unsupported.append(p['smiles'])
 
     def centres(self, facts):
         """per atom: list of pattern indices whose first atom it can be."""
@@ -159,7 +251,7 @@ class SchemeRef(object):
                 per[i].append(pi)
         return per
 
-    def decompose(self, m, facts=None):
+    def decompose(self, m, facts=None, clean=None):
         """-> (mapping name -> count, per-atom [(centre, periph, group)],
         fired dict).  Raises DecompositionError when some atom is matched by
         no centre pattern or by more than one."""
@@ -195,6 +287,24 @@ class SchemeRef(object):
             if n:
                 descs[name] += n
                 fired['descs'][name] += n
+        if self.smarts_descs:
+            # matched against the normalised molecule (explicit H, Kekule
+            # form except the rings the Benson perception made aromatic)
+            g = plain_graph(m)
+            for name, (zs, bonds) in self.smarts_descs:
+                n = count_atom_sets(g, zs, bonds)
+                if n:
+                    descs[name] += n
+                    fired['descs'][name] += n
+        if self.smiles_descs:
+            # matched against the molecule as RDKit reads the SMILES: no
+            # explicit hydrogens, RDKit's own aromaticity
+            g = plain_graph(clean)
+            for name, (zs, bonds) in self.smiles_descs:
+                n = count_atom_sets(g, zs, bonds)
+                if n:
+                    descs[name] += n
+                    fired['descs'][name] += n
         out = collections.defaultdict(float)
         for table in (groups, descs):
             for name, n in table.items():
